@@ -12,8 +12,9 @@ if [ $# -gt 0 ]; then for n in "$@"; do for b in selftest seeded; do [ -d $b/$n 
 else for d in selftest/*/ seeded/*/; do [ -f $d/patch.diff ] && dirs+=(${d%/}); done; fi
 for d in "${dirs[@]}"; do
   prop=$(python3 -c "import json;print(json.load(open('$d/meta.json'))['property'])")
-  S=$(mktemp -d /var/tmp/hvc-self.XXXXXX)
-  mkdir -p $S/repo && cp -r /repo/teamserver $S/repo/teamserver
+  # a fixed scratch path keeps the go build cache warm between mutants
+  S=/var/tmp/hvc-self
+  rm -rf $S; mkdir -p $S/repo && cp -r /repo/teamserver $S/repo/teamserver
   if ! (cd $S/repo && patch -p1 -s < /verif/$d/patch.diff); then echo "SELFTEST $d: patch does not apply"; fail=1; rm -rf $S; continue; fi
   out=$(HVC_REPO=$S/repo/teamserver HVC_OUT=$S/out bin/hvc check $prop --tier quick 2>&1); rc=$?
   viol=$(echo "$out" | grep -c '^VIOLATION')
